@@ -449,6 +449,13 @@ func judge(j Judge, res []RunResult, runErr error) (confirmed bool, observed any
 		steps0 := []map[string]any{}
 		_ = steps0
 		return registryJudge(j.Note, outs), map[string]any{"results": outs}
+	case "calc_pure":
+		// two Calc steps on the same buffer: neither may change it, both must return the same value
+		r2 := get(j.Step2)
+		if r.Panic != nil || r2.Panic != nil {
+			return true, map[string]any{"panic": r.Panic}
+		}
+		return r.Note != "" || r2.Note != "" || fmt.Sprint(r.Ret) != fmt.Sprint(r2.Ret), map[string]any{"first": r.Ret, "second": r2.Ret, "note": r.Note + r2.Note}
 	case "prefix_ne":
 		return !strings.HasPrefix(r.Buf, j.ExpectHex), map[string]any{"buf": r.Buf}
 	case "msg_ne":
